@@ -144,6 +144,27 @@ Proof.
     destruct (sim_cur e m s S) as [M1 _]. rewrite M1, bytes_eqb_refl. reflexivity.
 Qed.
 
+(** GetCommittedState: the value as of the block start, the zero hash (or nothing) when there is none *)
+Lemma step_getcommitted m s a k : Sim e m s -> step_ok m s (GetCommitted a k).
+Proof.
+  intro S. unfold step_ok. cbn [step spec_step].
+  pose proof (do_getcommitted_spec m a k (sim_inv e m s S)) as D.
+  pose proof (do_getcommitted_mono m a k) as Mo.
+  destruct (do_getcommitted cfg_fixed m a k) as [m2 x]. cbn [fst] in Mo.
+  destruct D as [m1 [o [v [GO [SV [Hc [Hx [Hv Hp]]]]]]]].
+  destruct (got_ok_create_ext e m a m1 o GO) as [ext0 [Hc1 CE]].
+  assert (SV2 : same_views m m2) by (eapply same_views_trans; [apply (got_ok_same_views m a m1 o GO) | exact SV]).
+  split.
+  - apply (Sim_same_views m m2 s ext0 S SV2).
+    apply (pushed_same_views e m m2 a ext0); try assumption; try (apply S). congruence.
+  - subst x. cbn [sexp_match sx_match].
+    destruct (sim_fl e m s S) as [F1 _]. rewrite <- F1, <- Hv.
+    unfold committed_out. destruct v as [b|]; cbn [is_nil nb].
+    + destruct (nonempty b) eqn:En; [apply bytes_eqb_refl|].
+      unfold nonempty in En. apply negb_false_iff in En. rewrite En. reflexivity.
+    + reflexivity.
+Qed.
+
 Lemma step_setst m s a k v : Sim e m s -> step_ok m s (SetSt a k v).
 Proof.
   intro S. unfold step_ok. cbn [step spec_step].
@@ -176,12 +197,12 @@ Proof.
   - cbn [sa_code]. symmetry. apply M3.
 Qed.
 
-Lemma step_setcode m s a c : Sim e m s -> c <> None -> step_ok m s (SetCode a c).
+Lemma step_setcode m s a c : Sim e m s -> step_ok m s (SetCode a c).
 Proof.
-  intros S Hne. unfold step_ok. cbn [step spec_step].
+  intros S. unfold step_ok. cbn [step spec_step].
   pose proof (do_setcode_spec m a c (sim_inv e m s S)) as D. cbv zeta in D.
   pose proof (do_setcode_mono m a c) as Mo.
-  destruct D as [prev [m1 [o [GO [W [Hc [Hprev [Hnone Hp]]]]]]]]. specialize (W Hne).
+  destruct D as [prev [m1 [o [GO [W [Hc [Hprev [Hnone Hp]]]]]]]].
   destruct (got_ok_create_ext e m a m1 o GO) as [ext0 [Hc1 CE]].
   split; [| reflexivity].
   destruct (sim_cur e m s S) as [_ [M2 M3]]. destruct (M2 a) as [Hn Hb].
